@@ -548,7 +548,13 @@ pub(crate) async fn run_actor_lifecycle<T: Actor>(
             // Messages can be: regular message envelopes or graceful stop signals
             maybe_message = receiver.recv() => {
                 match maybe_message {
-                    Some(MailboxMessage::Envelope { payload, reply_channel, actor_ref }) => {
+                    Some(MailboxMessage::Envelope {
+                        payload,
+                        reply_channel,
+                        actor_ref,
+                        #[cfg(feature = "deadlock-detection")]
+                        wait_token,
+                    }) => {
                         #[cfg(feature = "tracing")]
                         let msg_span = tracing::debug_span!("actor_process_message");
                         #[cfg(not(feature = "tracing"))]
@@ -571,6 +577,11 @@ pub(crate) async fn run_actor_lifecycle<T: Actor>(
                             payload.handle_message(&mut actor, actor_ref, reply_channel)
                                 .instrument(msg_span)
                         );
+
+                        // The request is answered: the asker no longer waits for this actor,
+                        // even if its task has not been resumed yet.
+                        #[cfg(feature = "deadlock-detection")]
+                        drop(wait_token);
 
                         #[cfg(feature = "tracing")]
                         debug!("Actor {} processed message in {:?}", actor_id, start_time.elapsed());
